@@ -50,7 +50,7 @@ def rule_arms(ctx):
                   'arm reached only when class is not PushBytes')
     ctx.check('arms', 'pushdata-arms-complete', set(seen) == {76, 77, 78}, m, 'arms for opcodes %s' % sorted(seen))
     # returned length: PushBytes(n) as usize | 0 | the operand values
-    rets = [canon(m.rvalue_expr(d[3])) for d in m.defs().get(0, []) if d[0] == 'assign']
+    rets = [canon(m.rvalue_expr(d[3])) for d in m.ret_defs() if d[0] == 'assign']
     ok_ret = [r for r in rets if r.startswith('Result::Ok')]
     exp_parts = {'((a3 as PushBytes).0 as usize)', '0'} | {'read_uint(%s, %d)?' % ('ARG', w) for w in (1, 2, 4)}
     got = set()
@@ -164,7 +164,7 @@ def rule_le(ctx):
     prog = ctx.prog
     r = prog.one(EV + 'read_uint')
     ctx.touch(r)
-    rets = [(canon(r.rvalue_expr(d[3])), util.guards_at(r, d[1])) for d in r.defs().get(0, []) if d[0] == 'assign']
+    rets = [(canon(r.rvalue_expr(d[3])), util.guards_at(r, d[1])) for d in r.ret_defs() if d[0] == 'assign']
     item = 'each(take(enumerate(a1), a2))'
     le = 'Result::Ok{0: sum(((%s.1 as usize) << (%s.0 * 8)))}' % (item, item)
     ok = [x for x in rets if x[0].startswith('Result::Ok')]
@@ -184,19 +184,19 @@ def rule_eof(ctx):
     for cs in ds:
         g = util.guards_at(ev, cs.bb)
         ctx.check('eof', 'data-slice-guard', '(self.ip + %s) <= self.n_bytes' % lenexpr in g, cs, 'data slice under %s' % [x for x in g if 'n_bytes' in x])
-    errs = [(canon(ev.rvalue_expr(d[3]) if d[0] == 'assign' else ev.call_expr(d[2])), util.guards_at(ev, d[1]), d[1]) for d in ev.defs().get(0, [])]
+    errs = [(canon(ev.rvalue_expr(d[3]) if d[0] == 'assign' else ev.call_expr(d[2])), util.guards_at(ev, d[1]), d[1]) for d in ev.ret_defs()]
     e = [x for x in errs if x[0] == 'Result::Err{0: ScriptError::UnexpectedEof{}}']
     ctx.check('eof', 'overrun-returns-eof', len(e) == 1 and 'self.n_bytes < (self.ip + %s)' % lenexpr in e[0][1], ev,
               'UnexpectedEof under %s' % (e[0][1] if e else '?'))
     # operand-too-short paths of the tokenizer are propagated with `?`
-    prop = [d for d in ev.defs().get(0, []) if d[0] == 'call' and mir.method_name(d[2].name) == 'from_residual'
+    prop = [d for d in ev.ret_defs() if d[0] == 'call' and mir.method_name(d[2].name) == 'from_residual'
             and canon(ev.call_expr(d[2])).startswith('from_residual(')]
     ctx.check('eof', 'tokenizer-error-propagated', len(prop) == 1, ev, '`?` on maybe_push_data')
     # entry point mapping
     en = prog.one('custom::eval_from_bytes_custom')
     ctx.touch(en)
     rets = {}
-    for d in en.defs().get(0, []):
+    for d in en.ret_defs():
         v = en.rvalue_expr(d[3]) if d[0] == 'assign' else en.call_expr(d[2])
         rets[canon(v)] = util.guards_at(en, d[1])
     nr = 'EvaluatedScript::EvaluatedScript{address: Option::None{}, pattern: ScriptPattern::NotRecognised{}}'
@@ -235,7 +235,7 @@ def rule_noop(ctx):
         g = util.guards_for(ev, cs.bb, cs.args[1])
         ctx.check('noop', 'data-only-for-positive-length', any(x.startswith('0 < %s' % lenc) for x in g), cs, 'Data token only when push length > 0')
     # the token vector is the one matched against the templates and returned
-    r = [canon(ev.rvalue_expr(d[3])) for d in ev.defs().get(0, []) if d[0] == 'assign' and canon(ev.rvalue_expr(d[3])).startswith('Result::Ok')]
+    r = [canon(ev.rvalue_expr(d[3])) for d in ev.ret_defs() if d[0] == 'assign' and canon(ev.rvalue_expr(d[3])).startswith('Result::Ok')]
     ctx.check('noop', 'pattern-from-same-tokens', r == ['Result::Ok{0: Stack::Stack{pattern: eval_script_pattern(with_capacity(10)), elements: with_capacity(10)}}'], ev, '%s' % r)
 
 
@@ -269,7 +269,7 @@ def rule_templates(ctx):
     p = prog.one(EV + 'eval_script_pattern')
     ctx.touch(p)
     seen = {}
-    for d in p.defs().get(0, []):
+    for d in p.ret_defs():
         v = p.rvalue_expr(d[3]) if d[0] == 'assign' else p.call_expr(d[2])
         c = canon(v)
         g = util.guards_at(p, d[1])
@@ -301,7 +301,7 @@ def rule_templates(ctx):
     mt = prog.one(EV + 'match_stack_pattern')
     ctx.touch(mt)
     rets = []
-    for d in mt.defs().get(0, []):
+    for d in mt.ret_defs():
         alts = util.value_alternatives(mt, d[3]['op']) if d[0] == 'assign' and d[3]['k'] == 'use' else None
         if alts:
             here = set(util.guards_at(mt, d[1]))
@@ -334,12 +334,14 @@ def rule_templates(ctx):
     ctx.check('templates', 'matcher:equal-length-and-all-equal', okm, mt, 'match_stack_pattern returns %s' % sorted(rets))
     eq = prog.one('<blockchain::proto::script::custom::StackElement as std::cmp::PartialEq>::eq')
     ctx.touch(eq)
-    rets = sorted((canon(eq.rvalue_expr(d[3])) if d[0] == 'assign' else canon(eq.call_expr(d[2])), tuple(util.guards_at(eq, d[1]))) for d in eq.defs().get(0, []))
+    # truth table over (kind of self, kind of other): one outcome per path on which the result is set
+    rets = sorted(set((canon(eq.rvalue_expr(d[3])) if d[0] == 'assign' else canon(eq.call_expr(d[2])), tuple(g))
+                      for d in eq.ret_defs() for g in util.path_guard_sets(eq, d[1])))
     exp = sorted([('false', ('a2 is Data', 'self is Op')), ('eq((self as Op).0, (a2 as Op).0)', ('a2 is Op', 'self is Op')),
                   ('false', ('a2 is Op', 'self is Data')), ('true', ('a2 is Data', 'self is Data'))])
     ctx.check('templates', 'element-eq:data-by-kind-ops-by-code', rets == exp, eq, 'StackElement::eq = %s' % rets)
     dt = prog.one('StackElement::data')
-    rets = sorted((canon(dt.rvalue_expr(d[3])), tuple(util.guards_at(dt, d[1]))) for d in dt.defs().get(0, []) if d[0] == 'assign')
+    rets = sorted((canon(dt.rvalue_expr(d[3])), tuple(util.guards_at(dt, d[1]))) for d in dt.ret_defs() if d[0] == 'assign')
     ctx.check('templates', 'data()-returns-the-bytes', rets == sorted([('Result::Err{0: ScriptError::InvalidFormat{}}', ('self is Op',)), ('Result::Ok{0: (self as Data).0}', ('self is Data',))]), dt, '%s' % rets)
 
 
@@ -378,8 +380,11 @@ def rule_addr(ctx):
     # eval_from_stack maps errors to address-less results
     es = prog.one('custom::eval_from_stack')
     ctx.touch(es)
-    rets = sorted(canon(es.rvalue_expr(d[3])) for d in es.defs().get(0, []) if d[0] == 'assign')
-    ctx.check('addr', 'errors-carry-no-address', all('address: Option::None{}' in r or r == 'compute_stack(a1, a2)?' for r in rets) and len(rets) == 3, es, '%s' % rets)
+    rets = sorted(canon(es.rvalue_expr(d[3])) for d in es.ret_defs() if d[0] == 'assign')
+    # the Ok value passes through; every other result (however the error arms are grouped) has address None
+    okr = [r for r in rets if r == 'compute_stack(a1, a2)?']
+    other = [r for r in rets if r != 'compute_stack(a1, a2)?']
+    ctx.check('addr', 'errors-carry-no-address', len(okr) == 1 and other and all(r.startswith('EvaluatedScript::EvaluatedScript{address: Option::None{}, ') for r in other), es, '%s' % rets)
     # Base58Check
     h = prog.one('custom::hash_160_to_address')
     ctx.touch(h)
